@@ -157,6 +157,28 @@ get_page_maybe_xlat(struct page_io *pio)
 		: get_page_xlat(pio);
 }
 
+/**  Check that an address space can be used for reading.
+ * @param ctx  Dump file object.
+ * @param as   Address space given by the caller.
+ * @returns    Error status.
+ *
+ * The address space is used as a bit number in the capabilities mask,
+ * so it must be one of the enumerated values before it is used there.
+ */
+static kdump_status
+check_addrspace(kdump_ctx_t *ctx, kdump_addrspace_t as)
+{
+	switch (as) {
+	case KDUMP_KPHYSADDR:
+	case KDUMP_MACHPHYSADDR:
+	case KDUMP_KVADDR:
+		return KDUMP_OK;
+	default:
+		return set_error(ctx, KDUMP_ERR_INVALID,
+				 "Invalid address space: %d", (int) as);
+	}
+}
+
 /**  Internal version of @ref kdump_read
  * @param         ctx      Dump file object.
  * @param[in]     as       Address space of @p addr.
@@ -177,6 +199,12 @@ read_locked(kdump_ctx_t *ctx, kdump_addrspace_t as, kdump_addr_t addr,
 	struct page_io pio;
 	size_t remain;
 	kdump_status ret;
+
+	ret = check_addrspace(ctx, as);
+	if (ret != KDUMP_OK) {
+		*plength = 0;
+		return ret;
+	}
 
 	if (*plength && !get_page_size(ctx)) {
 		*plength = 0;
@@ -244,6 +272,10 @@ read_string_locked(kdump_ctx_t *ctx, kdump_addrspace_t as, kdump_addr_t addr,
 	char *str = NULL, *newstr, *endp;
 	size_t length = 0, newlength;
 	kdump_status ret;
+
+	ret = check_addrspace(ctx, as);
+	if (ret != KDUMP_OK)
+		return ret;
 
 	if (!get_page_size(ctx))
 		return set_error(ctx, KDUMP_ERR_NODATA,
